@@ -45,7 +45,31 @@ def outcome(fn):
     return 'True' if v is True else 'False' if v is False else str(v) if isinstance(v, int) else 'present'
 
 
+def _plugin(qr, *args, **kw):
+    return ('plugin called', qr, args, kw)
+
+
+class _EP:
+    name = 'installed'
+
+    def load(self):
+        return _plugin
+
+
+def _entry_points(**params):
+    """the installed converters: exactly one, 'installed', in the group segno.plugin.converter"""
+    if params.get('group') == 'segno.plugin.converter' and params.get('name') in (None, 'installed'):
+        return [_EP()]
+    return []
+
+
 def object_obs(arg):
+    from unittest import mock
+    with mock.patch('importlib.metadata.entry_points', _entry_points):
+        return _object_obs(arg)
+
+
+def _object_obs(arg):
     vec, pair = arg
     segno = common.use_repo()
     objs = [build(segno, o, pair) for o in vec['objs']]
@@ -66,7 +90,14 @@ def object_obs(arg):
         got = outcome(lambda: len(x))
     elif name == 'attr':
         got = outcome(lambda: (getattr(x, op['attr']), 'present')[1])
-        if got == 'present' and isinstance(x, tuple) and op['attr'] not in ('save', 'terminal'):
+        if got == 'present' and op['attr'].startswith('to_'):
+            # the converter is called with the symbol itself (the item of a one-item sequence) in front of the caller's arguments
+            try:
+                r = getattr(x, op['attr'])(7, k=8)
+                same = r[0] == 'plugin called' and r[1] is (x[0] if isinstance(x, tuple) else x) and r[2:] == ((7,), {'k': 8})
+            except Exception:  # noqa
+                same = False
+        elif got == 'present' and isinstance(x, tuple) and op['attr'] not in ('save', 'terminal'):
             try:
                 same = bool(getattr(x, op['attr']) == getattr(x[0], op['attr']))
             except Exception:  # noqa
